@@ -27,6 +27,65 @@ def scens(ctx, n):
     return [D.gen_scenario(ctx.rng, bias) for _ in range(n)]
 
 
+SITE = r'''
+import sys, time
+_real = time.monotonic
+_t = [1000.0]
+def _mono():
+    f = sys._getframe(1)
+    fn, name = f.f_code.co_filename, f.f_code.co_name
+    if fn.endswith('statistics.py') and name == 'stop':
+        _t[0] += 1.2            # all the time of the run is spent inside pass runs …
+        return _t[0]
+    if fn.endswith('statistics.py') or fn.endswith('cvise.py'):
+        _t[0] += 0.01           # … and almost none outside
+        return _t[0]
+    return _real()
+time.monotonic = _mono
+'''
+
+
+def cli_part(ctx):
+    """the table printed at the end, from the real command line: `cvise.py` is run on a small input with two tool-free passes
+    under a scripted clock (time passes inside pass runs only; the elapsed time has a fractional part below one half):
+    every pass time and percentage is >= 0 and the percentages add up to at most 100"""
+    import os
+    import re
+    import subprocess
+    import sys as _sys
+    import tempfile
+    from pathlib import Path
+    from vlib import REPO
+    d = Path(tempfile.mkdtemp(prefix='c20cli-', dir=ctx.scratch))
+    (d / 'stub' / 'chardet').mkdir(parents=True)
+    (d / 'stub' / 'chardet' / '__init__.py').write_text("def detect(b):\n    return {'encoding': 'ascii', 'confidence': 1.0}\n")
+    (d / 'stub' / 'sitecustomize.py').write_text(SITE)
+    (d / 'group.json').write_text('{"first": [], "main": [{"pass": "blank"}], "last": []}')
+    (d / 'work').mkdir()
+    (d / 'work' / 'a.c').write_text('int keep;\n\n\nint x;\n\n')
+    (d / 'work' / 't.sh').write_text('#!/bin/sh\ngrep -q keep a.c\n')
+    os.chmod(d / 'work' / 't.sh', 0o755)
+    env = dict(os.environ, PYTHONPATH=f"{d / 'stub'}:{REPO}", TMPDIR=str(d))
+    r = subprocess.run([_sys.executable, str(REPO / 'cvise.py'), '--pass-group-file', str(d / 'group.json'), '--n', '1', '--no-cache', 't.sh', 'a.c'],
+                       cwd=d / 'work', env=env, capture_output=True, text=True, timeout=120)
+    ctx.count()
+    text = r.stderr + r.stdout
+    rows = re.findall(r'^\s+(\S.*?)\s+(-?\d+\.\d+)\s+(-?\d+\.\d+)\s+(\d+)\s+(\d+)\s+(\d+)\s*$', text, re.M)
+    m = re.search(r'Runtime: (\d+) seconds', text)
+    sc = {'kind': 'cli', 'rows': rows, 'runtime': m.group(1) if m else None}
+    if not rows:
+        ctx.notes['cli'] = 'cvise.py did not print a statistics table here: ' + text[-300:]
+        return
+    ctx.nontrivial(('cli', len(rows)))
+    secs = [float(x[1]) for x in rows]
+    pct = [float(x[2]) for x in rows]
+    if any(v < 0 for v in secs + pct):
+        ctx.report('negative-pass-time:cli', f'statistics table: {rows}', sc)
+    elif sum(pct) > 100.0 + 0.01 * len(pct):
+        ctx.report('pass-time-exceeds-elapsed:cli', f'the time (%) column adds up to {sum(pct):.2f} (passes {sum(secs):.2f} s, printed runtime {sc["runtime"]} s)', sc)
+    ctx.notes['cli'] = {'rows': len(rows), 'percent_sum': round(sum(pct), 2)}
+
+
 def run(ctx):
     if ctx.replay:
         D.replay_drv(ctx, json.load(open(ctx.replay)), [oracle])
@@ -35,6 +94,7 @@ def run(ctx):
     diffs = []
     t0 = time.monotonic()
     rows = D.sweep(ctx, scens(ctx, 500 if ctx.tier == 'quick' else 8000), [oracle], diffs, nontriv)
+    cli_part(ctx)
     elapsed = time.monotonic() - t0
     total_pass_time = sum(sum(o['seconds'].values()) for _, o, _, _ in rows if 'seconds' in o)
     if total_pass_time > elapsed + 1e-6:
@@ -49,4 +109,4 @@ def run(ctx):
                       rule='table passes with faults/limits/errors under scripted schedules; per pass: worked == commits seen by a wrapper of process_result, '
                            'executed == candidates the shim saw scheduled, failed <= executed, seconds >= 0, sum of pass seconds <= elapsed; all compared with the model\'s per-pass counters. '
                            'non-trivial = run with accepts, failures and cancelled/unjudged candidates',
-                      extra={'sum_pass_seconds': round(total_pass_time, 4), 'elapsed': round(elapsed, 4)})
+                      extra={'sum_pass_seconds': round(total_pass_time, 4), 'elapsed': round(elapsed, 4), 'cli_table': ctx.notes.get('cli')})
